@@ -9,6 +9,7 @@
 use crate::common::*;
 use crate::eng_cache::IDS;
 use crate::exec_world::*;
+use assets_manager::AssetCache;
 use std::collections::{BTreeMap, BTreeSet};
 
 #[derive(Default)]
@@ -211,7 +212,7 @@ impl Engine for HrEngine {
             // ---------------------------------------------------------------- C05: an asset first loaded DURING a pass (known finding F-C05d)
             6 => {
                 let n = if tier == Tier::Thorough { 60 } else { 24 };
-                if (idx / 8) % 2 == 0 { l.push(format!("newdep {n}")); } else { l.push(format!("rewire {n}")); }
+                match (idx / 8) % 3 { 0 => l.push(format!("newdep {n}")), 1 => l.push(format!("rewire {n}")), _ => l.push("cross 2".to_string()) }
             }
             // ---------------------------------------------------------------- C05: convergence over random DAGs
             _ => {
@@ -274,6 +275,10 @@ impl Engine for HrEngine {
     fn exec_case(&mut self, lines: &[String], rec: &mut CaseRec) {
         if let Some(n) = lines.first().and_then(|l| l.strip_prefix("newdep ")).and_then(|n| n.parse::<usize>().ok()) {
             newdep_probe(n, rec);
+            return;
+        }
+        if let Some(n) = lines.first().and_then(|l| l.strip_prefix("cross ")).and_then(|n| n.parse::<usize>().ok()) {
+            cross_probe(n, rec);
             return;
         }
         if let Some(n) = lines.first().and_then(|l| l.strip_prefix("rewire ")).and_then(|n| n.parse::<usize>().ok()) {
@@ -454,6 +459,57 @@ fn rewire_probe(trials: usize, rec: &mut CaseRec) {
     rec.stat(format!("rewire/stale-trials={}", if stale == 0 { "0" } else { ">0" }));
     if stale > 0 { rec.oracle_fail(format!("stale-asset-newly-depending-on-changed-asset in {stale} of {trials} trials: S0:b (rewired to load the cached S0:e) was rebuilt from the stale S0:e and not reloaded again, although b.s and e.s were both notified before hot_reload")); }
     rec.op(format!("hr.rewire {trials}"), "observed");
+}
+
+/// the second cache of `cross_probe` (a loader cannot be handed one: it is a global)
+static SECOND: std::sync::Mutex<Option<&'static AssetCache<crate::types::MemSource>>> = std::sync::Mutex::new(None);
+/// A compound of cache A that reads one asset of its own cache and ONE through a second, independent hot-reloaded cache B
+/// (that load fails and the failure is tolerated).
+pub struct X2(pub i64);
+impl assets_manager::Compound for X2 {
+    fn load(cache: assets_manager::AnyCache, id: &assets_manager::SharedString) -> Result<Self, assets_manager::BoxedError> {
+        let own = cache.load::<crate::types::S<0>>(&format!("{id}_own"))?.read().0;
+        let second = *SECOND.lock().unwrap_or_else(|e| e.into_inner());
+        let other = second.and_then(|c| c.load::<crate::types::S<1>>("skin").ok().map(|h| h.read().0)).unwrap_or(-1);
+        Ok(X2(own * 1000 + other))
+    }
+}
+
+/// C14 "and only to it": what a load does through ANOTHER cache is not a dependency of the asset being loaded in this one.
+/// `orc` (cache A) loads `orc_own` from A and tries `skin` through cache B, where it does not exist. A's source also has a
+/// file `skin.s`, which nothing in A ever read: editing it must not reload `orc`; editing `orc_own.s` must.
+fn cross_probe(rounds: usize, rec: &mut CaseRec) {
+    let mut bad: Vec<String> = vec![];
+    for r in 0..rounds {
+        let b_src = crate::types::MemSource::new(true);
+        let b: &'static AssetCache<crate::types::MemSource> = Box::leak(Box::new(AssetCache::with_source(b_src.clone())));
+        *SECOND.lock().unwrap_or_else(|e| e.into_inner()) = Some(b);
+        let mut wx = WorldExec::new("shared", "hot");
+        wx.op(&format!("src.put {} {} {} 0", hexs("orc_own"), hexs("s"), hexs("1")));
+        wx.op(&format!("src.put {} {} {} 0", hexs("skin"), hexs("s"), hexs("7")));
+        let Fe::Shared(a) = &wx.fe else { unreachable!() };
+        let a: &AssetCache<crate::types::MemSource> = unsafe { &*(&**a as *const AssetCache<crate::types::MemSource>) };
+        let h = match a.load::<X2>("orc") { Ok(h) => h, Err(e) => { bad.push(format!("probe-broken load of orc failed: {e}")); break } };
+        if h.read().0 != 1000 - 1 { bad.push(format!("probe-broken orc = {}", h.read().0)); }
+        // the same-named file in A, which A never read
+        wx.op(&format!("src.put {} {} {} 0", hexs("skin"), hexs("s"), hexs(&format!("{}", 8 + r))));
+        wx.op(&format!("notify f:{}:{}", hexs("skin"), hexs("s")));
+        wx.op("reload");
+        let rid1 = h.last_reload_id().verif_raw();
+        if rid1 != 0 { bad.push(format!("wrong-attribution editing skin.s of cache A, which `orc` never read (it tried `skin` through a second cache): `orc` was reloaded (reload id {rid1})")); }
+        // control: its own dependency
+        wx.op(&format!("src.put {} {} {} 0", hexs("orc_own"), hexs("s"), hexs("2")));
+        wx.op(&format!("notify f:{}:{}", hexs("orc_own"), hexs("s")));
+        wx.op("reload");
+        let rid2 = h.last_reload_id().verif_raw();
+        if rid2 != rid1 + 1 || h.read().0 != 2000 - 1 { bad.push(format!("wrong-attribution editing orc_own.s: `orc` has reload id {rid1} -> {rid2}, value {}", h.read().0)); }
+        *SECOND.lock().unwrap_or_else(|e| e.into_inner()) = None;
+        drop(wx);
+    }
+    rec.nontrivial = true;
+    rec.stat("family=cross-cache");
+    for m in &bad { rec.oracle_fail(m.clone()); }
+    rec.op(format!("hr.cross {rounds}"), if bad.is_empty() { "isolated" } else { "leaked" });
 }
 
 fn newdep_probe(trials: usize, rec: &mut CaseRec) {
